@@ -6,20 +6,14 @@
 From Coq Require Import List NArith Bool Arith Lia.
 From Coq.Strings Require Import Byte.
 Import ListNotations.
-From OV Require Import Base.Bytes Base.Cases Base.Tree Model.Pipeline Proofs.Pipeline.
+From OV Require Import Base.Bytes Base.Cases Base.Tree Model.Pipeline Proofs.Pipeline Proofs.PipelineCache.
 
 (* schema: which node javascript_with_context is applied to *)
 Inductive tschema := OnRecord | OnRoot.
 
-(* caches: customfuncs.disableCaching, NodeToJSONCache (node ID -> JSON) *)
-Definition tcache := (bool * list (N * bytes))%type.
-Definition tc0 : tcache := (false, []).
-
-Fixpoint lookup (k : N) (l : list (N * bytes)) : option bytes :=
-  match l with
-  | [] => None
-  | (k', v) :: r => if N.eqb k k' then Some v else lookup k r
-  end.
+(* caches: customfuncs.disableCaching, NodeToJSONCache (node ID -> JSON; any capacity) *)
+Definition tcache := (bool * lcache N bytes)%type.
+Definition tc0 : tcache := (false, mkLC None []).
 
 (* what the JSON of the chosen node shows: the record's text (the root's content is its current
    child, the record) followed by the context's text *)
@@ -31,28 +25,26 @@ Definition tkey (s : tschema) (w : world) : option N :=
   | OnRecord => match w_rec_ids w with i :: _ => Some i | [] => None end
   end.
 
-(* getNodeJSON (javascript.go:58-66) + a script returning _node; an empty text fails the record *)
+(* getNodeJSON (javascript.go:58-66, Model/Pipeline.v get_node_json) + a script returning _node;
+   an empty text fails the record *)
 Definition teval (m : bool) (c : tcache) (s : tschema) (w : world) : option bytes * tcache :=
-  let '(off, es) := c in
   let fin (v : bytes) := match inner_text (w_rec w) with [] => None | _ => Some v end in
-  if off then (fin (tcontent w), c)
-  else match tkey s w with
-       | None => (fin (tcontent w), c)
-       | Some k => match lookup k es with
-                   | Some v => (fin v, c)
-                   | None => (fin (tcontent w), (off, (k, tcontent w) :: es))
-                   end
-       end.
+  match tkey s w with
+  | None => (fin (tcontent w), c)
+  | Some k => let '(j, lc') := get_node_json (fst c) k (tcontent w) (snd c) in (fin j, (fst c, lc'))
+  end.
 
-Definition tCInv (used : list N) (c : tcache) : Prop := forall k v, In (k, v) (snd c) -> In k used.
+Definition tCInv (used : list N) (c : tcache) : Prop :=
+  forall k v, In (k, v) (lc_entries (snd c)) -> In k used.
 Definition tguard (s : tschema) : Prop := s = OnRecord.
 
-Lemma lookup_None k l : (forall v, ~ In (k, v) l) -> lookup k l = None.
+Lemma lc_find_None k (l : list (N * bytes)) :
+  (forall v, ~ In (k, v) l) -> lc_find N bytes N.eqb k l = None.
 Proof.
   induction l as [|[k' v'] r IH]; intros Hn; simpl; [reflexivity|].
   destruct (N.eqb_spec k k') as [->|Hne].
   - exfalso. apply (Hn v'). now left.
-  - apply IH. intros v Hv. apply (Hn v). now right.
+  - rewrite IH; [reflexivity|]. intros v Hv. apply (Hn v). now right.
 Qed.
 
 Lemma t_CInv_mono : forall used used' c,
@@ -76,19 +68,17 @@ Lemma t_caches_sound : forall used c m s w,
   tCInv used c -> (forall i, In i (w_rec_ids w) -> ~ In i used) -> tguard s ->
   fst (teval m c s w) = fst (teval m tc0 s w) /\ tCInv (w_rec_ids w ++ used) (snd (teval m c s w)).
 Proof.
-  intros used [off es] m s w Hc Hfresh ->. unfold teval, tc0. simpl.
-  destruct off.
-  - split.
-    + destruct (w_rec_ids w); reflexivity.
-    + intros k v Hk. apply in_or_app. right. eapply Hc; eauto.
-  - destruct (w_rec_ids w) as [|i l] eqn:Ei; simpl.
-    + split; [reflexivity|]. intros k v Hk. eapply Hc; eauto.
-    + assert (Hl : lookup i es = None).
-      { apply lookup_None. intros v Hv. apply (Hfresh i); [now left|]. eapply Hc; eauto. }
-      rewrite Hl. simpl. split; [reflexivity|].
-      intros k v [E|Hk].
+  intros used [off lc] m s w Hc Hfresh ->. unfold teval, tc0, tCInv in *. simpl in *.
+  destruct (w_rec_ids w) as [|i l] eqn:Ei; simpl.
+  - split; [reflexivity|]. exact Hc.
+  - unfold get_node_json. destruct off; simpl.
+    + split; [reflexivity|]. intros k v Hk. right. apply in_or_app. right. eauto.
+    + assert (Hl : lc_find N bytes N.eqb i (lc_entries lc) = None).
+      { apply lc_find_None. intros v Hv. apply (Hfresh i); [now left|]. eauto. }
+      unfold lc_get. rewrite Hl. simpl. split; [reflexivity|].
+      intros k v Hk. apply lc_trim_In in Hk. destruct Hk as [E|Hk].
       * inversion E; subst. now left.
-      * right. apply in_or_app. right. eapply Hc; eauto.
+      * right. apply in_or_app. right. eauto.
 Qed.
 
 (* ---- a concrete transform ------------------------------------------------------------------------ *)
@@ -98,11 +88,12 @@ Definition t_ctx : list tree := [T ElementNode [x68] FNone [T TextNode [x48] FNo
 Definition t_units : list runit := [URec (leaf x31); URec empty_rec; UFail; URec (leaf x32); URec (leaf x31)].
 
 (* two hidden states: a fresh process, and a warmed-up one (counter advanced, nodes in the pool,
-   a schedule of sync.Pool choices, memo off, a filled node-JSON cache) *)
+   a schedule of sync.Pool choices, memo off, a filled node-JSON cache of capacity ONE), and one
+   with pooling and the JS caches switched off *)
 Definition h_fresh : hid tcache := mkHid (mkA 0%N [] true []) true tc0.
 Definition h_warm : hid tcache :=
-  mkHid (mkA 9%N [5%N; 3%N; 8%N] true [1; 7; 0; 0; 2]) false (false, [(2%N, [x7a]); (7%N, [x7a])]).
-Definition h_off : hid tcache := mkHid (mkA 4%N [] false []) true (true, []).
+  mkHid (mkA 9%N [5%N; 3%N; 8%N] true [1; 7; 0; 0; 2]) false (false, mkLC (Some 1) [(2%N, [x7a])]).
+Definition h_off : hid tcache := mkHid (mkA 4%N [] false []) true (true, mkLC None []).
 
 Lemma Inv_h_fresh : Inv tcache tCInv h_fresh.
 Proof.
@@ -119,7 +110,7 @@ Proof.
     + repeat constructor; simpl; lia.
     + repeat constructor; simpl; lia.
     + intros i [<-|[<-|[]]]; simpl; intuition congruence.
-  - intros k v [E|[E|[]]]; inversion E; subst; simpl; auto.
+  - intros k v [E|[]]; inversion E; subst; simpl; auto.
 Qed.
 
 Lemma Inv_h_off : Inv tcache tCInv h_off.
